@@ -55,21 +55,29 @@ def parseErrs : Nat → List String → Option (List Err × List String)
 
 def step (line : String) : String :=
   match fields line with
-  | "report" :: ts :: n :: rest =>
-    match dec ts, n.toNat? with
-    | some ts, some n =>
+  | "report" :: ts :: nlines :: n :: rest =>
+    match dec ts, nlines.toNat?, n.toNat? with
+    | some ts, some nlines, some n =>
       match parseErrs n rest with
       | some (es, dfiles) =>
         let decodeErrs := dfiles.filterMap dec
         let rt := es.any (fun e => e.cls ≠ [])
+        -- index.html: a file row per group, then its finding rows (the rows of `indexRows`, group by group)
+        let rows := indexRows es
         let gs := sortedGroups es
         let parts := gs.flatMap fun g =>
           let d := decodeErrs.contains g.file
-          ("G:" ++ enc (fileRowHtml g d)) :: (sortedErrs g).map fun e => "R:" ++ enc (rowHtml g d rt ts e)
+          ("G:" ++ enc (fileRowHtml g d)) ::
+            ((rows.filter fun r => r.group.no = g.no).map fun r => "R:" ++ enc (rowHtml r.group d rt ts r.err))
+        -- per-file pages: menu, and the annotation text behind every source line 1..nlines
         let menus := gs.map fun g => "M:" ++ toString g.no ++ ":" ++ enc (menuHtml g)
-        " ".intercalate (parts ++ menus)
+        let annots := gs.flatMap fun g =>
+          (List.range nlines).filterMap fun i =>
+            let a := lineAnnot g (i + 1)
+            if a = ['\n'] then none else some ("A:" ++ toString g.no ++ ":" ++ toString (i + 1) ++ ":" ++ enc a)
+        " ".intercalate (parts ++ menus ++ annots)
       | none => "bad-op"
-    | _, _ => "bad-op"
+    | _, _, _ => "bad-op"
   | ["escape", s] =>
     match dec s with
     | some s => enc (htmlEscape s) ++ " " ++ enc (unescape (htmlEscape s))
